@@ -325,7 +325,9 @@ func texts(sigma []string, n int) [][]byte {
 }
 
 var syntaxLines = []string{"+x", "-x", " x", "@@ -1 +1 @@", "@@ -1,1 +1,1 @@", "\\ No newline at end of file",
-	"--- a", "+++ b", "diff a b", "", " ", "\\", "+", "-", "@@", "dup", "dup", "dup2", "}", "\r"}
+	"--- a", "+++ b", "diff a b", "", " ", "\\", "+", "-", "@@", "dup", "dup", "dup2", "}", "\r",
+	// printf-verb-ish and escape-ish tokens (a text line must never be read as a format)
+	"%", "%d", "100%", "%s %v %%", "%!", "%%", "%!d(MISSING)", "%[1]d", "%-5d|", "%\n", "\\n", "\\", "\t", "a\tb", "a\x00b", "\x00", "%c%c"}
 
 // structured: common runs of 0..9 lines between edits, duplicates, diff-looking lines
 func genStructured(r *common.RNG) tcase {
@@ -404,6 +406,9 @@ func genRandom(r *common.RNG, maxLines int) tcase {
 		if r.Chance(1, 40) {
 			base[i] = common.Pick(r, syntaxLines)
 		}
+		if r.Chance(1, 12) {
+			base[i] = fmt.Sprintf("%d%% of %%%c", r.Intn(alpha), "dsvq%"[r.Intn(5)])
+		}
 	}
 	mutate := func(src []string) []string {
 		var out []string
@@ -443,7 +448,7 @@ func genBytes(r *common.RNG) tcase {
 	mk := func() []byte {
 		b := make([]byte, r.Intn(24))
 		for i := range b {
-			const al = "\n\na\nb\\+- @\r\x00\xff"
+			const al = "\n\na\nb\\+- @\r\x00\xff%%ds\t"
 			b[i] = al[r.Intn(len(al))]
 		}
 		return b
@@ -655,7 +660,7 @@ func main() {
 	defer m.Close()
 	rn := &runner{f: f, res: res, m: m, nshr: map[string]int{}}
 	res.Rule = "a case counts as non-trivial when the texts differ (Diff goes through lines, tgs and the hunk loop); " +
-		"compared: all bytes returned by diff.Diff vs render of the model; oracles: independent unified-diff parser + forward and reverse patch application, header, order, counts, start lines, empty-iff-identical, no panic"
+		"compared: all bytes returned by diff.Diff vs render of the model, and the diff logged by failing testscript cmp/cmpenv lines vs render on (a, expanded b); oracles: independent unified-diff parser + forward and reverse patch application, header, order, counts, start lines, empty-iff-identical, no panic"
 
 	if f.Replay != "" {
 		rp, err := common.LoadReplay(f.Replay)
@@ -664,6 +669,11 @@ func main() {
 			os.Exit(2)
 		}
 		in := rp.Violation.Input
+		if in["mode"] == "consumer" {
+			rn.consumerBatch([]ccase{ccaseFromInput(in)}, "replay")
+			res.Write(f.Out)
+			return
+		}
 		c := tcase{oldName: string(common.UnHex(in["oldName"])), newName: string(common.UnHex(in["newName"])),
 			old: common.UnHex(in["old"]), new: common.UnHex(in["new"])}
 		rn.one(c, "replay")
@@ -699,12 +709,12 @@ func main() {
 		}
 	}
 
-	// 2. exhaustive: line sequences over {a,b,c}, length <= 4 per side (thorough: 5), final NL yes/no
+	// 2. exhaustive: line sequences over {a,b,%d}, length <= 4 per side (thorough: 5), final NL yes/no
 	n := 4
 	if f.Tier == "thorough" {
 		n = 5
 	}
-	ts := texts([]string{"a", "b", "c"}, n)
+	ts := texts([]string{"a", "b", "%d"}, n)
 	k := 0
 	for _, o := range ts {
 		for _, nw := range ts {
@@ -714,6 +724,13 @@ func main() {
 				held = append(held, c)
 			}
 			k++
+		}
+	}
+	// a second small exhaustive sweep over printf / escape tokens
+	ts2 := texts([]string{"%", "\\", "%%s"}, 2)
+	for _, o := range ts2 {
+		for _, nw := range ts2 {
+			rn.one(tcase{oldName: "old", newName: "new", old: o, new: nw}, "exhaustive-escapes")
 		}
 	}
 	res.Exhaustive = true
@@ -755,7 +772,21 @@ func main() {
 		}
 	}
 	rn.flush()
-	// 6. the executable form of the theorems, evaluated on the model
+	// 6. the consumer: diffs logged by failing cmp / cmpenv lines of testscript
+	rn.consumerBatch(consumerFixed(), "consumer-fixed")
+	rc := rng.Fork()
+	nc := 600
+	if f.Tier == "thorough" {
+		nc = 6000
+	}
+	for done := 0; done < nc; done += 200 {
+		var cs []ccase
+		for i := 0; i < 200; i++ {
+			cs = append(cs, genConsumer(rc))
+		}
+		rn.consumerBatch(cs, "consumer")
+	}
+	// 7. the executable form of the theorems, evaluated on the model
 	rn.modelHolds(held)
 	res.Write(f.Out)
 }
